@@ -749,6 +749,38 @@ def dict_method(E, st, dv, meth, args, kwargs):
             rng = z3.SeqSort(K)
             s2.heap[ok_] = z3.Store(E.arr(s2, ok_, z3.IntSort(), rng), d2.t, z3.Select(E.arr(s2, ok_, z3.IntSort(), rng), dv.t))
         return ok(s2, d2)
+    if meth == "update" and len(args) == 1 and not kwargs and args[0].kind.tag in ("dict", "odict") \
+            and args[0].kind[1] == dv.kind[1] and args[0].kind[2] == dv.kind[2] and dv.kind.tag == "dict":
+        # d.update(e) for two dicts of one kind (insertion order of plain dicts is not modelled): afterwards a key is in d
+        # iff it was in d or is in e, with e's value where e has the key
+        other = args[0]
+        K = sort_of(dv.kind[1])
+        s2 = st.copy()
+        q = z3.Const(fresh_name("upk"), K)
+        E.uses_quantifiers = True
+        facts = []
+        in_e = None
+        names = [("DK|%s|%s" % (dv.kind[1], dv.kind[2]), z3.ArraySort(K, z3.BoolSort()), "has")]
+        ks = alts(dv.kind[2])
+        if len(ks) > 1:
+            names.append(("DT|%s|%s" % (dv.kind[1], dv.kind[2]), z3.ArraySort(K, z3.IntSort()), "tag"))
+        for k in ks:
+            if k.tag != "none":
+                names.append((E.dvals_key(dv, k), z3.ArraySort(K, sort_of(k)), "val"))
+        hk, hr = names[0][0], names[0][1]
+        old_has = z3.Select(E.arr(s2, hk, z3.IntSort(), hr), dv.t)
+        e_has = z3.Select(E.arr(s2, hk, z3.IntSort(), hr), other.t)
+        for key, rng, what in names:
+            old_d = z3.Select(E.arr(s2, key, z3.IntSort(), rng), dv.t)
+            e_d = z3.Select(E.arr(s2, key, z3.IntSort(), rng), other.t)
+            new_d = z3.Const(fresh_name("upd_" + what), rng)
+            if what == "has":
+                facts.append(z3.Select(new_d, q) == z3.Or(z3.Select(old_d, q), z3.Select(e_d, q)))
+            else:
+                facts.append(z3.Select(new_d, q) == z3.If(z3.Select(e_has, q), z3.Select(e_d, q), z3.Select(old_d, q)))
+            s2.heap[key] = z3.Store(E.arr(s2, key, z3.IntSort(), rng), dv.t, new_d)
+        s2 = s2.assume(z3.ForAll([q], z3.And(facts)))
+        return ok(s2, VNONE)
     raise Unsupported("dict.%s" % meth)
 
 
